@@ -71,6 +71,7 @@ SF_CHUNK_ITERATOR **sfh_handle_it (const char *name) ;
 void op_chunks (char **tok, int ntok) ;
 int grid_c17 (int argc, char **argv) ;
 int cmd_c03consts (void) ;
+int cmd_sitesconsts (void) ;
 
 /* iolog.c (C15) */
 void op_iolog (char **tok, int ntok) ;
